@@ -578,6 +578,14 @@ def unchecked_crop(rep, prog, rule):
                     rep.ok(rule, key, c.at, "literal box (0, 0, width(), height())")
                 else:
                     rep.unk(rule, key, c.at, "literal box %s" % ops)
+            elif re.search(r"get_crop_box|fit_src_into_dst_size|options|SrcCropping|\bcrop_box\b(?!\()", s) \
+                    and any((re.search(r"\.(left|top|width|height)\b", fmt(cc)) and
+                             re.search(r"\b(width|height)\((src_view|image_view|self)", fmt(cc)))
+                            or re.search(r"is_nan|is_finite", fmt(cc))
+                            for cc, vv in sym.facts_at(c.bb)):
+                rep.unk(rule, key, c.at, "the box %s reaches crop_unchecked behind checks of its own "
+                        "fields; whether they amount to the validation of crop() is not decided"
+                        % s[:80])
             elif re.search(r"get_crop_box|fit_src_into_dst_size|options|SrcCropping|\bcrop_box\b(?!\()", s):
                 rep.bad(rule, key, c.at, "%s hands the unvalidated box %s to crop_unchecked: a box "
                         "computed from the options can be NaN (f64::clamp keeps NaN, so "
